@@ -19,9 +19,9 @@ addresses, `fixPos` neighbour positions, `C01.support`, `C06.support`, `C03.find
 REAL step programs (`op` computes the kernel's value from the values read; tied to
 `C01.erodeModel`, `C06.convAcc`, `C08.labeledFoldView` in `Proofs/C12Kernels.lean`), and so is label
 (addresses generated along the union-find run, values computed from the values read; tied to
-`C03.labelModel` in `Proofs/C12Label.lean`); cwatershed is a *trace replay* of the model run (each write
-step stores the value the model stores; the read/write SETS are those of the run, the values are not
-recomputed from memory).
+`C03.labelModel` in `Proofs/C12Label.lean`) and cwatershed (addresses generated along the run of
+`C04.modelRun`; the values stored into `res` are copies of values read, those stored into `status` /
+`lines` are the constants the C++ stores; tied to `C04.cwatershedModel` in `Proofs/C12Cwatershed.lean`).
 
 Import-free (only `Mahotas.Model.*`).
 -/
@@ -321,7 +321,8 @@ def labelRaw (m : Mode) (shape : List Nat) (data : List Int) (vBc : C08.View) (b
 
 roles: `inp 0` = surface, `inp 1` = markers, `inp 2` = Bc; `own 0` = `res` (C array, flat), `own 1` =
 `status`, `own 2` = the priority queue (cell = insertion index), `own 3` = `lines`, `own 4` = the
-neighbour table, `own 5` = a register.  Trace replay of the run of `C04.modelRun`. -/
+neighbour table, `own 5` = a register.  Addresses along the run of `C04.modelRun`; `wrS` stores the same
+constants the C++ stores (`white`/`grey`/`black`, `true`); `res` receives copies of values read. -/
 
 /-- the marker scan step of `C04.modelInit` -/
 def wsInitStep (surf markers : Img Int) (st : C04.MSt) (i : Nat) : C04.MSt :=
